@@ -1,14 +1,27 @@
 (* Driver for the extracted C16 model.  Sub-command "run" (default), protocol on stdin, many cases per run:
      CASE
-     E <hex name> I <decimal>          binding of an interpolated expression text to an integer value
-     E <hex name> S <hex>              ... to a string value
-     P <0|1> <arg> ...                 print (0) / println (1); arg = Q<hex> string literal token text,
-                                       I<decimal> integer-valued expression, S<hex> string-valued expression
-     F                                 a statement that raises a run-time error
+     <call>                            the call instance of main
      END
-   Output per case: "OK <hex of stdout> <1 if the run ended in the error statement else 0> ,<hex>,<hex>..."
-   (the last field: output of each statement before the failing one) or
-   "ERR parse" (some literal does not split: nothing runs) / "ERR unsupported" / "ERR unbound".
+   <call> ::=
+     CALL
+     A <hex name>  <comp>              parameter name, followed by its argument expression
+     L <hex text>  <comp>              source text of an expression of the body, followed by what it is
+     P <0|1> <arg> ...                 print (0) / println (1)
+     F                                 a statement that raises a run-time error
+     X <hex text>                      expression statement (the value is dropped)
+     T <hex name> <arg>                declaration  T name = <arg>;
+     RET <arg>                         return expression (absent: no value)
+     ENDCALL
+   <comp> ::= VAL I <decimal> | VAL S [<hex>] | <call>
+   <arg>  ::= Q<hex> string literal token text | I<decimal> effect-free integer expression | S<hex> effect-free
+              string expression | R<hex> any other expression, by its source text
+   The A / L / statement lines of a call may come in any order; statements keep their order.
+   (Old format, still accepted inside the main call: "E <hex> I <dec>" / "E <hex> S [<hex>]" = L + VAL.)
+   Output per case: "OK <hex of stdout> <1 if the run ended in an error else 0> ,<hex>,<hex>..."
+   (the last field: what each statement of main wrote, up to and including the failing one; "!" = outside the model)
+   or "ERR parse" (some literal does not split: nothing runs) / "ERR unsupported" / "ERR unbound".
+   For a case without calls the result is cross-checked against the effect-free model (run_program): "ERR lift"
+   would mean the two extracted functions disagree (excluded by theorem nested_model_conservative).
    Sub-command "split": one hex literal per line -> "T<hex>" / "X<hex>[:<hex>]" / "D" tokens, or "ERR parse";
    prefixed by "1 " / "0 " = the lexer's interpolation flag. *)
 open C16_model
@@ -36,38 +49,107 @@ let z_of_string s : z =
 let parse_arg t =
   let rest = String.sub t 1 (String.length t - 1) in
   match t.[0] with
-  | 'Q' -> AQuoted (unhex rest)
-  | 'I' -> AInt (z_of_string rest)
-  | 'S' -> AStr (unhex rest)
+  | 'Q' -> XQuoted (unhex rest)
+  | 'I' -> XInt (z_of_string rest)
+  | 'S' -> XStr (unhex rest)
+  | 'R' -> XRef (unhex rest)
   | _ -> failwith ("bad arg " ^ t)
 
 let words l = List.filter (fun w -> w <> "") (String.split_on_char ' ' l)
 
+let pushed : string list option ref = ref None
+let rec next_words () =
+  match !pushed with
+  | Some w -> pushed := None; w
+  | None ->
+    match words (input_line stdin) with
+    | [] -> next_words ()
+    | w -> w
+
+(* reads the lines of a call after its CALL line, up to ENDCALL *)
+let rec read_call ?(stop = "ENDCALL") () : comp =
+  let ps = ref [] and ls = ref [] and body = ref [] and ret = ref None in
+  let fin = ref false in
+  while not !fin do
+    (match next_words () with
+     | [w] when w = stop -> fin := true
+     | ["A"; n] -> let c = read_comp () in ps := (unhex n, c) :: !ps
+     | ["L"; n] -> let c = read_comp () in ls := (unhex n, c) :: !ls
+     | ["E"; n; "I"; v] -> ls := (unhex n, CVal (VInt (z_of_string v))) :: !ls
+     | ["E"; n; "S"; v] -> ls := (unhex n, CVal (VStr (unhex v))) :: !ls
+     | ["E"; n; "S"] -> ls := (unhex n, CVal (VStr [])) :: !ls
+     | "P" :: nl :: args -> body := XPrint (nl = "1", List.map parse_arg args) :: !body
+     | ["F"] -> body := XFail :: !body
+     | ["X"; n] -> body := XEval (unhex n) :: !body
+     | ["T"; n; a] -> body := XLet (unhex n, parse_arg a) :: !body
+     | ["RET"; a] -> ret := Some (parse_arg a)
+     | w -> failwith ("bad line in call: " ^ String.concat " " w))
+  done;
+  CCall (List.rev !ps, List.rev !ls, List.rev !body, !ret)
+
+and read_comp () : comp =
+  match next_words () with
+  | ["VAL"; "I"; v] -> CVal (VInt (z_of_string v))
+  | ["VAL"; "S"; v] -> CVal (VStr (unhex v))
+  | ["VAL"; "S"] -> CVal (VStr [])
+  | ["CALL"] -> read_call ()
+  | w -> failwith ("bad comp: " ^ String.concat " " w)
+
+(* the effect-free image of a case, if it has one (no calls, no X/T statements) *)
+let pure_image (c : comp) : (env * stmt list) option =
+  match c with
+  | CCall ([], ls, body, None) ->
+      (try
+        let e = List.map (fun (k, v) -> match v with CVal x -> (k, x) | _ -> raise Exit) ls in
+        let arg = function XQuoted s -> AQuoted s | XInt z -> AInt z | XStr s -> AStr s | XRef _ -> raise Exit in
+        let st = function XPrint (nl, a) -> SPrint (nl, List.map arg a) | XFail -> SFail | _ -> raise Exit in
+        Some (e, List.map st body)
+      with Exit -> None)
+  | _ -> None
+
+let report (c : comp) =
+  match run_main c with
+  | Inl (o, failed) ->
+      (* what each statement of main wrote, for the harness' own oracle *)
+      let per =
+        match c with
+        | CCall (_, ls, body, _) ->
+            let e0 = List.map (fun (k, c') -> (k, run_comp c')) ls in
+            let rec go e = function
+              | [] -> []
+              | s :: r ->
+                  (match stmt_m e s with
+                   | Inl (side, Some e') -> hex side :: go e' r
+                   | Inl (side, None) -> [hex side]
+                   | Inr _ -> ["!"]) in
+            go e0 body
+        | CVal _ -> [] in
+      let ok =
+        match pure_image c with
+        | None -> true
+        | Some (e, p) ->
+            (match run_program e p with
+             | (Inl o', failed') -> o' = o && failed' = failed
+             | (Inr _, _) -> false) in
+      if ok then Printf.printf "OK %s %d %s\n" (hex o) (if failed then 1 else 0) (String.concat "," ("" :: per))
+      else print_endline "ERR lift"
+  | Inr EParse -> print_endline "ERR parse"
+  | Inr EUnsupported -> print_endline "ERR unsupported"
+  | Inr EUnbound -> print_endline "ERR unbound"
+
 let run () =
-  let env = ref [] and prog = ref [] in
   (try while true do
-    let l = input_line stdin in
-    match words l with
-    | ["CASE"] -> env := []; prog := []
-    | ["E"; n; "I"; v] -> env := (unhex n, VInt (z_of_string v)) :: !env
-    | ["E"; n; "S"; v] -> env := (unhex n, VStr (unhex v)) :: !env
-    | ["E"; n; "S"] -> env := (unhex n, VStr []) :: !env
-    | "P" :: nl :: args -> prog := SPrint (nl = "1", List.map parse_arg args) :: !prog
-    | ["F"] -> prog := SFail :: !prog
-    | ["END"] ->
-        (match run_program (List.rev !env) (List.rev !prog) with
-         | (Inl o, failed) ->
-             (* per-statement outputs (up to the failing statement) for the harness' own oracle *)
-             let rec per = function
-               | [] | SFail :: _ -> []
-               | s :: r -> (match stmt_out (List.rev !env) s with Inl b -> hex b | Inr _ -> "!") :: per r in
-             Printf.printf "OK %s %d %s\n" (hex o) (if failed then 1 else 0)
-               (String.concat "," ("" :: per (List.rev !prog)))
-         | (Inr EParse, _) -> print_endline "ERR parse"
-         | (Inr EUnsupported, _) -> print_endline "ERR unsupported"
-         | (Inr EUnbound, _) -> print_endline "ERR unbound")
-    | [] -> ()
-    | _ -> failwith ("bad line " ^ l)
+    match next_words () with
+    | ["CASE"] ->
+        (match next_words () with
+         | ["CALL"] ->
+             let c = read_call () in
+             (match next_words () with
+              | ["END"] -> report c
+              | w -> failwith ("expected END: " ^ String.concat " " w))
+         | w -> (* old flat format: the lines of main directly, up to END *)
+             pushed := Some w; report (read_call ~stop:"END" ()))
+    | w -> failwith ("bad line " ^ String.concat " " w)
   done with End_of_file -> ())
 
 let split_cmd () =
